@@ -975,6 +975,11 @@ func (v Value) MarshalJSON() ([]byte, error) {
 	case valueUndefined, valueNull:
 		return []byte("null"), nil
 	case valueBoolean, valueNumber:
+		if v.kind == valueNumber {
+			if f := v.float64(); math.IsNaN(f) || math.IsInf(f, 0) {
+				return []byte("null"), nil // as JSON.stringify
+			}
+		}
 		return json.Marshal(v.value)
 	case valueString:
 		return json.Marshal(v.string())
